@@ -70,7 +70,7 @@ func stageAlphabet() []atom {
 	// and / or / parentheses
 	add("f_and", lf(and(cmpS("a", "=", "1"), cmpS("b", "=", "x"))), 0)
 	add("f_or", lf(or(cmpS("a", "=", "2"), cmpN("v", ">", "2"))), 0)
-	add("f_paren", lf(and(paren(or(cmpS("a", "=", "2"), cmpS("b", "=", "y z"))), cmpN("v", ">", "1"))), 0)
+	add("f_paren", lf(and(paren(or(cmpS("a", "=", "2"), cmpS("b", "=", "w z"))), cmpN("v", ">", "1"))), 0)
 	add("f_or_and", lf(or(cmpS("a", "=", "2"), and(cmpS("b", "=", "x"), cmpN("v", ">", "1")))), 1)
 	{
 		// `a = "2" and b = "y" or v > 2`: LogQL binds `and` tighter: (a and b) or v;  qryn's grammar is right
@@ -320,12 +320,15 @@ func subsets(pool []row, maxSize int, prefix string, metric bool) []database {
 
 const lastNs = 4*sec + 999_999_999 // last nanosecond of the first bucket
 
+// Label values are chosen so that the regex atoms (`x|y`) give the same answer anchored and unanchored (the
+// statements leave anchoring open): "x", "y", "w z".
+//
 // jsonPool: entries that `json` can parse.  Timestamps sit on the window start, on both sides of the bucket
 // boundary, tie across streams (limit ties) and on the last nanosecond of the window.
 var jsonPool = []row{
 	{0, T0, `{"a":"1","b":"x","v":"2"}`},
 	{0, T0 + lastNs, `{"a":"2","b":"y","v":"0"}`},
-	{1, T0 + 5*sec, `{"a":"1","b":"y z","v":3}`},
+	{1, T0 + 5*sec, `{"a":"1","b":"w z","v":3}`},
 	{1, T0 + 6*sec, `{"a":"1","n":{"k":"v"},"arr":[1,2.5],"v":"5"}`},
 	{0, T0 + 6*sec, `{"a":"bc"}`},
 	{0, T0 + 5*sec + lastNs, `{"ab":"c"}`},
@@ -333,7 +336,7 @@ var jsonPool = []row{
 
 var logfmtPool = []row{
 	{0, T0, `a=1 b=x v=2`},
-	{0, T0 + lastNs, `a=2 b="y z" v=0`},
+	{0, T0 + lastNs, `a=2 b="w z" v=0`},
 	{1, T0 + 5*sec, `a=1 b=y v=3 msg="q=1 \"w\""`},
 	{1, T0 + 6*sec, `a=bc`},
 	{0, T0 + 6*sec, `ab=c`},
@@ -420,6 +423,9 @@ func compositions(n int) [][]int {
 	return out
 }
 
+// quickEmpties (quick tier): the empty message is inserted at the first, the middle and the last position only.
+var quickEmpties = false
+
 // allFramings: every composition of the n entries + EOF marker (so the marker rides with the last entries or
 // travels alone), each also with one empty message inserted at every position; plus every composition of the n
 // entries without any marker (the getter's ctx.Done() exit).
@@ -429,6 +435,9 @@ func allFramings(n int, withEmpty, withNoEOF bool) []framing {
 		out = append(out, framing{sizes: c, eof: true})
 		if withEmpty {
 			for p := 0; p <= len(c); p++ {
+				if quickEmpties && p != 0 && p != len(c) && p != len(c)/2 {
+					continue
+				}
 				s := append(append(append([]int{}, c[:p]...), 0), c[p:]...)
 				out = append(out, framing{sizes: s, eof: true})
 			}
